@@ -1,4 +1,649 @@
-//! engine `tb` (stub)
-pub fn run(_fields: &[&str]) -> String {
-    "unimplemented".to_string()
+//! engine `tb` — the real html5ever tree builder (protocol: lean/H5V/Model/HtmlTBDriver.lean)
+//!
+//!   tb <TAB> tok <TAB> opts <TAB> ctx <TAB> tokens   tokens straight into `TreeBuilder::process_token`, then `end()`
+//!   tb <TAB> txt <TAB> opts <TAB> ctx <TAB> chunks   text through the real Tokenizer + TreeBuilder
+//!
+//! Everything goes through `TracingSink<RcDom>` (op trace + TreeSink contract monitor).  In `txt`
+//! mode the tree builder is wrapped in a recording `TokenSink` (answers of `process_token`, EOF
+//! count) and driven exactly like `driver.rs` drives it; the same input is then parsed a second
+//! time through the real `parse_document` / `parse_fragment` and the two op traces must be equal
+//! (`DRIVER-MISMATCH` otherwise).
+use crate::proto::*;
+use crate::sinkops::*;
+use html5ever::tendril::{StrTendril, TendrilSink};
+use html5ever::tokenizer::states::{self, RawKind};
+use html5ever::tokenizer::{
+    BufferQueue, Doctype, Tag, TagKind, Token, TokenSink, TokenSinkResult, Tokenizer, TokenizerOpts,
+};
+use html5ever::tree_builder::{create_element, TreeBuilder, TreeBuilderOpts};
+use html5ever::ParseOpts;
+use markup5ever::interface::tree_builder::QuirksMode;
+#[allow(unused_imports)]
+use markup5ever::{namespace_url, ns, Attribute, LocalName, QualName};
+use markup5ever::TokenizerResult;
+use markup5ever_rcdom::{Handle, NodeData, RcDom};
+use std::cell::{Cell, RefCell};
+use std::panic::{self, catch_unwind, AssertUnwindSafe};
+use std::rc::Rc;
+
+type TS = TracingSink<RcDom>;
+type TH = TracedHandle<Handle>;
+type TB = TreeBuilder<TH, TS>;
+
+// ------------------------------------------------------------------ case parsing
+
+#[derive(Clone)]
+struct Cfg {
+    opts: TreeBuilderOpts,
+    cs: Option<bool>,
+    tx: bool,
+}
+
+fn parse_bool(s: &str) -> Option<bool> {
+    match s {
+        "0" => Some(false),
+        "1" => Some(true),
+        _ => None,
+    }
+}
+
+fn parse_opts(s: &str) -> Option<Cfg> {
+    let mut c = Cfg {
+        opts: TreeBuilderOpts::default(),
+        cs: None,
+        tx: false,
+    };
+    if s == "-" {
+        return Some(c);
+    }
+    for kv in s.split(',') {
+        let p: Vec<&str> = kv.split('=').collect();
+        match p.as_slice() {
+            ["s", v] => c.opts.scripting_enabled = parse_bool(v)?,
+            ["srcdoc", v] => c.opts.iframe_srcdoc = parse_bool(v)?,
+            ["exact", v] => c.opts.exact_errors = parse_bool(v)?,
+            ["dropdt", v] => c.opts.drop_doctype = parse_bool(v)?,
+            ["q", "n"] => c.opts.quirks_mode = QuirksMode::NoQuirks,
+            ["q", "l"] => c.opts.quirks_mode = QuirksMode::LimitedQuirks,
+            ["q", "q"] => c.opts.quirks_mode = QuirksMode::Quirks,
+            ["cs", v] => c.cs = Some(parse_bool(v)?),
+            ["tx", v] => c.tx = parse_bool(v)?,
+            _ => return None,
+        }
+    }
+    Some(c)
+}
+
+struct Ctx {
+    name: QualName,
+    attrs: Vec<Attribute>,
+    form: bool,
+}
+
+fn parse_ctx(s: &str) -> Option<Option<Ctx>> {
+    if s == "-" {
+        return Some(None);
+    }
+    let p: Vec<&str> = s.split(',').collect();
+    match p.as_slice() {
+        [q, a, f] => Some(Some(Ctx {
+            name: parse_qual(q)?,
+            attrs: parse_attrs(a)?,
+            form: parse_bool(f)?,
+        })),
+        _ => None,
+    }
+}
+
+fn st(s: &str) -> Option<StrTendril> {
+    Some(StrTendril::from_slice(&parse_string(s)?))
+}
+
+fn opt_st(s: &str) -> Option<Option<StrTendril>> {
+    if s == "~" {
+        Some(None)
+    } else {
+        st(s).map(Some)
+    }
+}
+
+/// same as Lean's `String.toNat?`
+fn parse_dec(s: &str) -> Option<u64> {
+    if s.is_empty() || !s.bytes().all(|b| b.is_ascii_digit()) {
+        return None;
+    }
+    s.parse().ok()
+}
+
+fn parse_token(s: &str) -> Option<(Token, u64)> {
+    let parts: Vec<&str> = s.split('@').collect();
+    let (body, line) = match parts.as_slice() {
+        [b] => (*b, 1),
+        [b, l] => (*b, parse_dec(l)?),
+        _ => return None,
+    };
+    let f: Vec<&str> = body.split(',').collect();
+    let tok = match f.as_slice() {
+        ["D", n, p, sy, fq] => Token::DoctypeToken(Doctype {
+            name: opt_st(n)?,
+            public_id: opt_st(p)?,
+            system_id: opt_st(sy)?,
+            force_quirks: parse_bool(fq)?,
+        }),
+        ["T", t] => Token::CharacterTokens(st(t)?),
+        ["N"] => Token::NullCharacterToken,
+        ["C", t] => Token::CommentToken(st(t)?),
+        ["Z"] => Token::EOFToken,
+        ["X", m] => Token::ParseError(parse_string(m)?.into()),
+        [k @ ("S" | "E"), name, sc, dup, rest @ ..] => {
+            if rest.len() % 2 != 0 {
+                return None;
+            }
+            let mut attrs = vec![];
+            for a in rest.chunks(2) {
+                attrs.push(Attribute {
+                    name: QualName::new(None, ns!(), LocalName::from(&*parse_string(a[0])?)),
+                    value: st(a[1])?,
+                });
+            }
+            Token::TagToken(Tag {
+                kind: if *k == "S" { TagKind::StartTag } else { TagKind::EndTag },
+                name: LocalName::from(&*parse_string(name)?),
+                self_closing: parse_bool(sc)?,
+                attrs,
+                had_duplicate_attributes: parse_bool(dup)?,
+            })
+        },
+        _ => return None,
+    };
+    Some((tok, line))
+}
+
+fn parse_tokens(s: &str) -> Option<Vec<(Token, u64)>> {
+    if s == "-" {
+        return Some(vec![]);
+    }
+    s.split(';').map(parse_token).collect()
+}
+
+fn parse_chunks(s: &str) -> Option<Vec<String>> {
+    s.split('|').map(parse_string).collect()
+}
+
+// ------------------------------------------------------------------ rendering
+
+fn data_str(d: &NodeData) -> String {
+    match d {
+        NodeData::Document => "doc".into(),
+        NodeData::Doctype {
+            name,
+            public_id,
+            system_id,
+        } => format!("dt,{},{},{}", show_str(name), show_str(public_id), show_str(system_id)),
+        NodeData::Text { contents } => format!("tx,{}", show_str(&contents.borrow())),
+        NodeData::Comment { contents } => format!("cm,{}", show_str(contents)),
+        NodeData::Element {
+            name,
+            attrs,
+            mathml_annotation_xml_integration_point,
+            ..
+        } => format!(
+            "el,{},{},{}",
+            show_qual(name),
+            show_attr_vec(&attrs.borrow()),
+            if *mathml_annotation_xml_integration_point { "m" } else { "-" }
+        ),
+        NodeData::ProcessingInstruction { target, contents } => {
+            format!("pi,{},{}", show_str(target), show_str(contents))
+        },
+    }
+}
+
+fn parent_ptr(n: &Handle) -> Option<Option<Handle>> {
+    let w = n.parent.take();
+    let r = w.as_ref().map(|w| w.upgrade());
+    n.parent.set(w);
+    r
+}
+
+/// `Dom.dumpAux`: `(<data>[^]{template contents}children…)`, `^` = the node's parent pointer is
+/// not the node that lists it as a child
+pub fn dump_node(n: &Handle, expected_parent: Option<&Handle>, out: &mut String) {
+    out.push('(');
+    out.push_str(&data_str(&n.data));
+    let ok = match (parent_ptr(n), expected_parent) {
+        (None, None) => true,
+        (Some(Some(p)), Some(e)) => Rc::ptr_eq(&p, e),
+        _ => false,
+    };
+    if !ok {
+        out.push('^');
+    }
+    if let NodeData::Element {
+        template_contents, ..
+    } = &n.data
+    {
+        if let Some(tc) = &*template_contents.borrow() {
+            out.push('{');
+            dump_node(tc, None, out);
+            out.push('}');
+        }
+    }
+    for c in n.children.borrow().iter() {
+        dump_node(c, Some(n), out);
+    }
+    out.push(')');
+}
+
+pub fn dump_dom(document: &Handle, quirks: QuirksMode) -> String {
+    let mut s = String::new();
+    dump_node(document, None, &mut s);
+    s.push_str(";Q=");
+    s.push_str(match quirks {
+        QuirksMode::Quirks => "quirks",
+        QuirksMode::LimitedQuirks => "limited",
+        QuirksMode::NoQuirks => "no",
+    });
+    s
+}
+
+fn clean_op(op: &str) -> String {
+    if op.starts_with("pe,") {
+        "pe".into()
+    } else {
+        op.to_string()
+    }
+}
+
+fn op_name(op: &str) -> &str {
+    op.split(',').next().unwrap_or("")
+}
+
+fn is_query(op: &str) -> bool {
+    matches!(op_name(op), "en" | "sn" | "tc" | "ip" | "ln" | "adsr" | "pe")
+}
+
+/// `(place, text)` of a text insertion
+fn text_insertion(op: &str) -> Option<(String, String)> {
+    let f: Vec<&str> = op.split(',').collect();
+    let (place, child) = match f.as_slice() {
+        ["ap", p, c] => (format!("ap,{}", p), *c),
+        ["abp", e, p, c] => (format!("abp,{},{}", e, p), *c),
+        ["abs", s, c] => (format!("abs,{}", s), *c),
+        _ => return None,
+    };
+    child.strip_prefix('t').map(|t| (place, t.to_string()))
+}
+
+/// canonical trace of `txt` cases: queries dropped, adjacent text insertions at one place merged
+fn canon_ops(trace: &[String]) -> Vec<String> {
+    let mut out: Vec<String> = vec![];
+    for op in trace {
+        if is_query(op) {
+            continue;
+        }
+        let op = clean_op(op);
+        if let (Some((p2, t2)), Some(prev)) = (text_insertion(&op), out.last()) {
+            if let Some((p1, t1)) = text_insertion(prev) {
+                if p1 == p2 {
+                    let merged = format!("{},t{} {}", p1, t1, t2);
+                    *out.last_mut().unwrap() = merged;
+                    continue;
+                }
+            }
+        }
+        out.push(op);
+    }
+    out
+}
+
+fn join_or(sep: &str, v: &[String]) -> String {
+    if v.is_empty() {
+        "-".into()
+    } else {
+        v.join(sep)
+    }
+}
+
+fn show_result(r: &TokenSinkResult<TH>) -> Option<String> {
+    Some(match r {
+        TokenSinkResult::Continue => return None,
+        TokenSinkResult::Script(h) => format!("S{}", h.id),
+        TokenSinkResult::Plaintext => "P".into(),
+        TokenSinkResult::RawData(k) => match k {
+            RawKind::Rcdata => "R0".into(),
+            RawKind::Rawtext => "R1".into(),
+            RawKind::ScriptData => "R2".into(),
+            RawKind::ScriptDataEscaped(states::Escaped) => "R3".into(),
+            RawKind::ScriptDataEscaped(states::DoubleEscaped) => "R4".into(),
+        },
+        TokenSinkResult::EncodingIndicator(t) => format!("I:{}", show_str(t)),
+    })
+}
+
+fn violation_indices(sink: &TS) -> Vec<usize> {
+    let mut v: Vec<usize> = sink.violations.borrow().iter().map(|(i, _)| *i).collect();
+    v.dedup();
+    v
+}
+
+fn render_common(sink: &TS, results: &[String], txt: bool) -> String {
+    let trace = sink.trace.borrow();
+    let ops: Vec<String> = if txt {
+        canon_ops(&trace)
+    } else {
+        trace.iter().map(|o| clean_op(o)).collect()
+    };
+    let viol = violation_indices(sink);
+    let v = if txt {
+        viol.len().to_string()
+    } else {
+        join_or(",", &viol.iter().map(|i| i.to_string()).collect::<Vec<_>>())
+    };
+    let errors = if txt {
+        "-".to_string()
+    } else {
+        trace.iter().filter(|o| op_name(o) == "pe").count().to_string()
+    };
+    let doc = sink.handles.borrow()[0].clone();
+    format!(
+        "T={}@V={}@D={}@R={}@E={}",
+        join_or(";", &ops),
+        v,
+        dump_dom(&doc, sink.inner.quirks_mode.get()),
+        join_or(",", results),
+        errors
+    )
+}
+
+// ------------------------------------------------------------------ panics
+
+thread_local! {
+    static PANIC_LOC: RefCell<Option<(String, u32)>> = const { RefCell::new(None) };
+}
+
+fn panic_message(e: &(dyn std::any::Any + Send)) -> String {
+    if let Some(s) = e.downcast_ref::<&str>() {
+        s.to_string()
+    } else if let Some(s) = e.downcast_ref::<String>() {
+        s.clone()
+    } else {
+        "?".to_string()
+    }
+}
+
+fn panic_class(msg: &str, sink: bool) -> String {
+    let table: &[(&str, &str)] = if sink {
+        &[
+            ("previous_parent.is_none()", "append-has-parent"),
+            ("not a template element", "not-template"),
+            ("not an element", "not-element"),
+            ("couldn't find in parent's children", "parent-mismatch"),
+            ("append_before_sibling called on node without parent", "abs-no-parent"),
+            ("insertion index", "insert-oob"),
+            ("already borrowed", "borrow"),
+            ("already mutably borrowed", "borrow"),
+            ("Option::unwrap()", "unwrap-none"),
+            ("Rc::ptr_eq", "reparent-assert"),
+            ("Trying to get selectedcontent of non-element", "sc-non-element"),
+            ("called with non-element node", "mc-non-element"),
+            ("left == right", "debug-assert"),
+            ("dangling weak", "dangling-weak"),
+            ("index out of bounds", "index-oob"),
+        ]
+    } else {
+        &[
+            ("no current element", "no-current-element"),
+            ("no context element", "no-context-element"),
+            ("no head element", "no-head-element"),
+            ("Option::unwrap()", "unwrap-none"),
+            ("index out of bounds", "index-oob"),
+            ("attempt to subtract with overflow", "sub-overflow"),
+            ("Found marker during adoption agency", "marker-in-aa"),
+            ("Found marker during formatting element reconstruction", "marker-in-reconstruct"),
+            ("bookmark not found", "bookmark-missing"),
+            ("formatting element not found", "fmt-missing"),
+            ("furthest block missing", "fb-missing"),
+            ("matches with no index", "matches-no-index"),
+            ("entered unreachable code", "unreachable"),
+            ("not prepared to handle this", "not-prepared"),
+            ("impossible case in foreign content", "eof-foreign"),
+            ("removal index", "remove-oob"),
+            ("insertion index", "insert-oob"),
+            ("assertion failed", "assert"),
+            ("parser finished with remaining input", "assert"),
+        ]
+    };
+    for (pat, class) in table {
+        if msg.contains(pat) {
+            return class.to_string();
+        }
+    }
+    format!("other({})", msg.replace(['\n', '\t', ';', '@', ' '], "_"))
+}
+
+/// `class@file:line` (`class@sink` for a panic inside RcDom or the tracing sink)
+fn describe_panic(e: &(dyn std::any::Any + Send)) -> String {
+    let msg = panic_message(e);
+    let loc = PANIC_LOC.with(|l| l.borrow_mut().take());
+    match loc {
+        None => format!("{}@?", panic_class(&msg, false)),
+        Some((file, line)) => {
+            if file.contains("rcdom/") || file.contains("sinkops.rs") {
+                return format!("{}@sink", panic_class(&msg, true));
+            }
+            let base = file.rsplit('/').next().unwrap_or(&file).to_string();
+            let short = if file.contains("tree_builder/") {
+                base
+            } else if file.contains("/tokenizer/") {
+                format!("tokenizer/{}", base)
+            } else if file.contains("html5ever/src/") {
+                base
+            } else {
+                // a panic raised inside std / another crate on behalf of the tree builder
+                format!("ext/{}", base)
+            };
+            format!("{}@{}:{}", panic_class(&msg, false), short, line)
+        },
+    }
+}
+
+/// run `f`, turning a panic into `Err(class@site)`.  The process-wide panic hook (silent, set by
+/// main.rs) is replaced for the duration of the call by one that records the panic location.
+fn guarded<F: FnOnce() -> String>(f: F) -> String {
+    PANIC_LOC.with(|l| *l.borrow_mut() = None);
+    let prev = panic::take_hook();
+    panic::set_hook(Box::new(|info| {
+        let loc = info.location().map(|l| (l.file().to_string(), l.line()));
+        PANIC_LOC.with(|l| {
+            // keep the first panic (a second one can only come from a destructor)
+            if l.borrow().is_none() {
+                *l.borrow_mut() = loc;
+            }
+        });
+    }));
+    let r = catch_unwind(AssertUnwindSafe(f));
+    panic::set_hook(prev);
+    match r {
+        Ok(s) => s,
+        Err(e) => format!("PANIC {}", describe_panic(&*e)),
+    }
+}
+
+// ------------------------------------------------------------------ token level
+
+fn make_builder(cfg: &Cfg, ctx: &Option<Ctx>) -> TB {
+    let sink: TS = TracingSink::new(RcDom::default(), true);
+    match ctx {
+        None => TreeBuilder::new(sink, cfg.opts),
+        Some(c) => {
+            let ctx_elem = create_element(&sink, c.name.clone(), c.attrs.clone());
+            let form = if c.form {
+                Some(create_element(
+                    &sink,
+                    QualName::new(None, ns!(html), LocalName::from("form")),
+                    vec![],
+                ))
+            } else {
+                None
+            };
+            TreeBuilder::new_for_fragment(sink, ctx_elem, form, cfg.opts)
+        },
+    }
+}
+
+fn run_tok(cfg: &Cfg, ctx: &Option<Ctx>, toks: Vec<(Token, u64)>) -> String {
+    let tb = make_builder(cfg, ctx);
+    let mut results = vec![];
+    for (t, line) in toks {
+        if let Some(r) = show_result(&tb.process_token(t, line)) {
+            results.push(r);
+        }
+    }
+    tb.end();
+    render_common(&tb.sink, &results, false)
+}
+
+// ------------------------------------------------------------------ text level
+
+/// the tree builder behind a recording `TokenSink`
+struct Wrap {
+    tb: TB,
+    results: RefCell<Vec<String>>,
+    n_eof: Cell<usize>,
+    last_eof: Cell<bool>,
+}
+
+impl TokenSink for Wrap {
+    type Handle = TH;
+
+    fn process_token(&self, token: Token, line: u64) -> TokenSinkResult<TH> {
+        let is_eof = matches!(token, Token::EOFToken);
+        if is_eof {
+            self.n_eof.set(self.n_eof.get() + 1);
+        }
+        self.last_eof.set(is_eof);
+        let r = self.tb.process_token(token, line);
+        if let Some(s) = show_result(&r) {
+            self.results.borrow_mut().push(s);
+        }
+        r
+    }
+
+    fn end(&self) {
+        self.tb.end()
+    }
+
+    fn adjusted_current_node_present_but_not_in_html_namespace(&self) -> bool {
+        self.tb.adjusted_current_node_present_but_not_in_html_namespace()
+    }
+}
+
+fn run_txt(cfg: &Cfg, ctx: &Option<Ctx>, chunks: &[String]) -> String {
+    let allows_scripting = cfg.cs.unwrap_or(cfg.opts.scripting_enabled);
+    let tok_opts = TokenizerOpts {
+        exact_errors: cfg.tx,
+        ..Default::default()
+    };
+    // --- as driver.rs does it, with the recording wrapper in between
+    let tb = make_builder(cfg, ctx);
+    let initial_state = match ctx {
+        None => None,
+        Some(_) => Some(tb.tokenizer_state_for_context_elem(allows_scripting)),
+    };
+    let wrap = Wrap {
+        tb,
+        results: RefCell::new(vec![]),
+        n_eof: Cell::new(0),
+        last_eof: Cell::new(false),
+    };
+    let tok = Tokenizer::new(
+        wrap,
+        TokenizerOpts {
+            initial_state,
+            ..tok_opts.clone()
+        },
+    );
+    let input = BufferQueue::default();
+    let loop_until_done = |tok: &Tokenizer<Wrap>| loop {
+        if matches!(tok.feed(&input), TokenizerResult::Done) {
+            break;
+        }
+    };
+    for c in chunks {
+        input.push_back(StrTendril::from_slice(c));
+        loop_until_done(&tok);
+    }
+    loop_until_done(&tok);
+    assert!(input.is_empty(), "parser finished with remaining input");
+    tok.end();
+    let w = &tok.sink;
+    let mine = format!(
+        "{}@K={},{}",
+        render_common(&w.tb.sink, &w.results.borrow(), true),
+        w.n_eof.get(),
+        w.last_eof.get() as u8
+    );
+    // --- the same input through the real driver (no form pointer there)
+    let form = ctx.as_ref().map(|c| c.form).unwrap_or(false);
+    if !form {
+        let opts = ParseOpts {
+            tokenizer: tok_opts,
+            tree_builder: cfg.opts,
+        };
+        let sink: TS = TracingSink::new(RcDom::default(), true);
+        let mut parser = match ctx {
+            None => html5ever::parse_document(sink, opts),
+            Some(c) => html5ever::parse_fragment(sink, opts, c.name.clone(), c.attrs.clone(), allows_scripting),
+        };
+        for c in chunks {
+            parser.process(StrTendril::from_slice(c));
+        }
+        let out = parser.finish();
+        if out.trace != *w.tb.sink.trace.borrow() {
+            return format!("DRIVER-MISMATCH {}", mine);
+        }
+    }
+    mine
+}
+
+/// the six namespace URLs are abbreviated in the output
+fn abbrev(s: String) -> String {
+    let table = [
+        ("http://www.w3.org/1999/xhtml", "$h"),
+        ("http://www.w3.org/1998/Math/MathML", "$m"),
+        ("http://www.w3.org/2000/svg", "$s"),
+        ("http://www.w3.org/1999/xlink", "$l"),
+        ("http://www.w3.org/XML/1998/namespace", "$x"),
+        ("http://www.w3.org/2000/xmlns/", "$n"),
+    ];
+    let mut s = s;
+    for (url, r) in table {
+        s = s.replace(&show_str(url), r);
+    }
+    s
+}
+
+pub fn run(fields: &[&str]) -> String {
+    abbrev(run1(fields))
+}
+
+fn run1(fields: &[&str]) -> String {
+    let [mode, opts, ctx, payload] = fields else {
+        return "bad-case".into();
+    };
+    let (Some(cfg), Some(ctx)) = (parse_opts(opts), parse_ctx(ctx)) else {
+        return "bad-case".into();
+    };
+    match *mode {
+        "tok" => match parse_tokens(payload) {
+            Some(toks) => guarded(|| run_tok(&cfg, &ctx, toks)),
+            None => "bad-case".into(),
+        },
+        "txt" => match parse_chunks(payload) {
+            Some(chunks) => guarded(|| run_txt(&cfg, &ctx, &chunks)),
+            None => "bad-case".into(),
+        },
+        _ => "bad-case".into(),
+    }
 }
